@@ -117,12 +117,16 @@ def circle_float_body(ctx, case):
     dy = c[:, None] - np.longdouble(cy)
     d2 = dx * dx + dy * dy
     r2 = np.longdouble(r) * np.longdouble(r)
-    judged = np.abs(d2 - r2) > 1e-9 * (1 + float(r2))
+    # pixels are judged unless they are closer to the rim than double-precision evaluation of the coordinates can
+    # resolve: each coordinate carries at most a few ulp of (size + |centre|), and near the rim |dx|, |dy| <= r
+    margin = 32 * 2.3e-16 * ((2 * r + 1) * (size + abs(cx) + abs(cy)) + float(r2) + 1e-300)
+    judged = np.abs(d2 - r2) > margin
     want = (d2 <= r2).astype(np.float64)
     inside = (abs(cx) + r + 1 < size / 2.0 and abs(cy) + r + 1 < size / 2.0) if origin == "middle" else \
         (cx - r - 1 > 0 and cy - r - 1 > 0 and cx + r + 1 < size and cy + r + 1 < size)
     ctx.case(case, nontrivial=bool(want.sum() > 0 and (cx != 0 or cy != 0)),
-             classes=[origin, "disc_inside_frame" if inside else "disc_clipped"])
+             classes=[origin, "disc_inside_frame" if inside else "disc_clipped",
+                      "pixel_within_1e-6_of_rim" if bool(np.any(judged & (np.abs(d2 - r2) < 2e-6 * float(r2)))) else "no_pixel_near_rim"])
     ctx.require(got.shape == (size, size), "circle: shape %s" % (got.shape,))
     ctx.require(set(np.unique(got).tolist()) <= {0.0, 1.0}, "circle: values not in {0,1}")
     bad = judged & (got != want)
@@ -148,6 +152,13 @@ def circle_float_cases(draw):
         cy = draw(st.floats(0, size, allow_nan=False))
     if draw(st.booleans()):
         r = min(r, size / 4.0)
+    if draw(st.booleans()):
+        # put one pixel centre just inside or just outside the rim: r = distance * (1 +- 10^-k)
+        i, j = draw(st.integers(0, size - 1)), draw(st.integers(0, size - 1))
+        o = size / 2.0 if origin == "middle" else 0.0
+        d = math.hypot(j + 0.5 - o - cx, i + 0.5 - o - cy)
+        k = draw(st.integers(6, 13))
+        r = d * (1.0 + draw(st.sampled_from([-1.0, 1.0])) * 10.0 ** (-k))
     return {"r": r, "size": size, "cx": cx, "cy": cy, "origin": origin}
 
 
